@@ -108,6 +108,7 @@ def plan(tier, seed):
         (corner("unit", prefix=XYT, coords=R3D, name="xy-tilted-field-3d"), SHORT, d),
         (corner("unit", prefix=XYI, qubits=3, name="xy-inplane-field"), SHORT, d),
         (corner("real", prefix=A.GG, qubits=2, name="real-two-globals", rydberg_level=100), A.render(l=None, g2="h"), d),
+        (corner("unit8", prefix=A.DG, qubits=3, name="unit8-dmm-first"), A.render(l="r", dmm="dmm_0", eom=False), d),
     ]
     return worlds
 
